@@ -445,3 +445,14 @@ Example C08_nonvacuous_prune9 :
   trace_of (run (exec true OPrune9 []) G14) = [1; 2; 3; 4; 5]%N /\
   prune_nodes G14 = [] /\ all_of_class G14 CNode = [1%N] /\ type_of G14 1 = T_Facility /\ marked G14 1 = true.
 Proof. exact ex_prune_facility. Qed.
+
+(* a plain link on a SUB-INTERFACE (G15): removing the component / node that owns the port above it deletes the link
+   together with the sub-interface; G15 satisfies WQ, so C08_deleted_links_iff / C08_deleted_nonlinks_iff apply to it *)
+Example C08_nonvacuous_link_on_subinterface :
+  WQ G15 /\
+  ok_of (run (exec true (ORemoveComponent 1 2) []) G15) = true /\
+  trace_of (run (exec true (ORemoveComponent 1 2) []) G15) = [2; 3; 4; 5; 6]%N /\
+  ok_of (run (exec true (ORemoveNode 1) []) G15) = true /\
+  trace_of (run (exec true (ORemoveNode 1) []) G15) = [1; 2; 3; 4; 5; 6]%N /\
+  type_of G15 5 = T_SubInterface /\ first_neighbor G15 6 RConnects CCP = [5; 7]%N.
+Proof. split; [exact WQ_G15 | exact ex_link_on_subinterface]. Qed.
